@@ -239,6 +239,52 @@ def output_validated(F, b):
 ORDER_OPS = ('Lt', 'Le', 'Gt', 'Ge')
 
 
+def check_duplicate_symbols(ctx, F):
+    """Constructors that build a symbol -> interval table must reject a repeated symbol (otherwise the later entry overwrites
+    the earlier one and the remaining intervals no longer tile [0, 2^PRECISION)).  Rule: every insertion into such a map
+    inside a model constructor either goes through `entry()` with the Occupied arm returning Err, or examines what
+    `insert` returns; a plain `insert(..)` whose result is dropped is refuted."""
+    n = 0
+    for b in F.bodies:
+        if b.promoted is not None or is_test(b) or b.dk not in ('Fn', 'AssocFn', 'Closure') or 'stream::model' not in b.defpath:
+            continue
+        if not any(((callee(t) or {}).get('def') or '').endswith(('HashMap<K, V, S>::insert', 'HashMap<K, V, S, A>::insert', '::entry')) for _, t in b.calls()):
+            continue
+        ev, paths = rules.evaluate(b)
+        if not paths:
+            continue
+        sites = {}
+        for r in paths:
+            if r.end not in ('return', 'backedge'):
+                continue
+            terms = [t for t, v, _ in r.preds] + ([r.ret] if r.ret is not None else [])
+            for e in r.events:
+                if e['kind'] != 'call':
+                    continue
+                if e['callee'].endswith('::entry'):
+                    # Occupied must lead to Err: on paths that go on, the entry was Vacant
+                    k = ('entry', (e.get('span') or '').split('-')[0])
+                    vac = any(t[0] == 'discr' and sym.contains(t[1], lambda x, res=e['result']: x == res) and sym.discr_variant(t, v) == 'Vacant' for t, v, _ in r.preds)
+                    occ = any(t[0] == 'discr' and sym.contains(t[1], lambda x, res=e['result']: x == res) and sym.discr_variant(t, v) == 'Occupied' for t, v, _ in r.preds)
+                    ok = vac or (occ and r.end == 'return' and rules.ret_shape(r.ret)[0] == 'Err')
+                    sites[k] = sites.get(k, True) and ok
+                elif e['callee'].endswith('::insert') and 'HashMap' in e['callee'] and not e['callee'].endswith('VacantEntry<\'a, K, V>::insert'):
+                    k = ('insert', (e.get('span') or '').split('-')[0])
+                    used = any(sym.contains(x, lambda y, res=e['result']: y == res) for x in terms)
+                    sites[k] = sites.get(k, True) and used
+        for i, ((kind, where), ok) in enumerate(sorted(sites.items())):
+            n += 1
+            ctx.touch(b)
+            key = 'R2/duplicate-symbol/%s/%s#%d' % (b.defpath, kind, i)
+            role = 'a repeated symbol is detected when the symbol table is filled'
+            if ok:
+                ctx.ok('R2', role, b.defpath, '%s at %s: an occupied slot ends in Err / the previous value is examined' % (kind, where), key=key)
+            else:
+                ctx.bad('R2', role, b.defpath, 'the table is filled with a plain `insert` whose result is dropped (at %s): a repeated symbol silently replaces the earlier entry, the constructor returns Ok and the remaining intervals no longer tile [0, 2^PRECISION)' % where,
+                        key=key, loc=where)
+    ctx.extra['map_insert_sites'] = n
+
+
 def check_supplied_normalization(ctx, F, b, role_name):
     """A caller-supplied scalar that stands in for a quantity the function could compute from its other argument (the
     `normalization: Option<F>` of the float-table ingesters, documented as "the sum of the probabilities") is redundant
@@ -641,6 +687,7 @@ def run(ctx):
     check_final_decision(ctx, F)
     check_constructor_narrowing(ctx, F)
     check_inferred_probability(ctx, F)
+    check_duplicate_symbols(ctx, F)
     if ctx.tier == 'thorough':
         from vlib import witness
         witness.run(ctx, 'C19')
